@@ -225,12 +225,12 @@ def op_tdvp(eng, task):
     poly.ABSTRACT[0] = task.get('abstract', 120)
     try:
         if variant == 'single':
-            nrm = EV.integrate_local_singlesite(H, psi, dt, 1, numiter_lanczos=KRYLOV_M)
+            nrm = EV.integrate_local_singlesite(H, psi, dt, task.get('nsteps', 1), numiter_lanczos=KRYLOV_M)
         else:
             tol = eng.sym('tolsplit')
             eng.assume(tol >= 0); eng.assume(tol < 1)
             inputs['tol'] = tol
-            nrm = EV.integrate_local_twosite(H, psi, dt, 1, numiter_lanczos=KRYLOV_M, tol_split=tol)
+            nrm = EV.integrate_local_twosite(H, psi, dt, task.get('nsteps', 1), numiter_lanczos=KRYLOV_M, tol_split=tol)
     finally:
         poly.ABSTRACT[0] = None
     return dict(results=[(psi, 'mps', 'tdvp state')], snap=snap, operands=[(H, 'mpo', 'H')], pure=False, boundary=(psi, old, nrm),
@@ -250,12 +250,12 @@ def op_dmrg(eng, task):
     poly.ABSTRACT[0] = task.get('abstract', 120)
     try:
         if variant == 'single':
-            en = MI.calculate_ground_state_local_singlesite(H, psi, 1, numiter_lanczos=KRYLOV_M)
+            en = MI.calculate_ground_state_local_singlesite(H, psi, task.get('nsteps', 1), numiter_lanczos=KRYLOV_M)
         else:
             tol = eng.sym('tolsplit')
             eng.assume(tol >= 0); eng.assume(tol < 1)
             inputs['tol'] = tol
-            en = MI.calculate_ground_state_local_twosite(H, psi, 1, numiter_lanczos=KRYLOV_M, tol_split=tol)
+            en = MI.calculate_ground_state_local_twosite(H, psi, task.get('nsteps', 1), numiter_lanczos=KRYLOV_M, tol_split=tol)
     finally:
         poly.ABSTRACT[0] = None
     return dict(results=[(psi, 'mps', 'dmrg state')], snap=snap, operands=[(H, 'mpo', 'H')], pure=False, boundary=(psi, old, None),
@@ -338,6 +338,11 @@ def op_tasks(tier):
         ts.append(dict(name=f'dmrg_{variant}_L2', op='dmrg', variant=variant, d=2, D=(1, 2, 1), DW=dw, qmode=task_q(q), cut=10))
         ts.append(dict(name=f'tdvp_{variant}_L2_zero', op='tdvp', variant=variant, d=2, D=(1, 2, 1), DW=(1, 2, 1), qmode='zero', cut=10))
         ts.append(dict(name=f'dmrg_{variant}_L2_zero', op='dmrg', variant=variant, d=2, D=(1, 2, 1), DW=(1, 2, 1), qmode='zero', cut=10))
+        # zero steps / sweeps (only the preparation and the final bookkeeping run) and two steps in one call
+        ts.append(dict(name=f'tdvp_{variant}_L2_zero_steps0', op='tdvp', variant=variant, d=2, D=(1, 2, 1), DW=(1, 2, 1), qmode='zero', nsteps=0, cut=10))
+        ts.append(dict(name=f'dmrg_{variant}_L2_zero_sweeps0', op='dmrg', variant=variant, d=2, D=(1, 2, 1), DW=(1, 2, 1), qmode='zero', nsteps=0, cut=10))
+        ts.append(dict(name=f'tdvp_{variant}_L2_zero_steps2', op='tdvp', variant=variant, d=2, D=(1, 2, 1), DW=(1, 1, 1), qmode='zero', nsteps=2, cut=10))
+        ts.append(dict(name=f'dmrg_{variant}_L2_zero_sweeps2', op='dmrg', variant=variant, d=2, D=(1, 2, 1), DW=(1, 1, 1), qmode='zero', nsteps=2, cut=10))
         if not q:
             ts.append(dict(name=f'tdvp_{variant}_L3_zero', op='tdvp', variant=variant, d=2, D=(1, 2, 2, 1), DW=(1, 2, 2, 1), qmode='zero', cut=10))
             ts.append(dict(name=f'dmrg_{variant}_L3_zero', op='dmrg', variant=variant, d=2, D=(1, 2, 2, 1), DW=(1, 2, 2, 1), qmode='zero', cut=10))
